@@ -76,7 +76,7 @@ func TestC20Worker(t *testing.T) {
 	if !verifkit.IsWorker() {
 		t.Skip("worker entry point")
 	}
-	verifkit.ServeWorker(c20Decoders, 4<<30)
+	verifkit.ServeWorker(c20Decoders, 3<<30)
 }
 
 // C20Record is the replay form.
@@ -91,7 +91,9 @@ type c20Violation struct{ key, what string }
 func c20Judge(kind string, b []byte, note string, rep *verifkit.Report) (*c20Violation, bool) {
 	o, _, died, dmsg, dsite, err := c20Worker.Do("D", kind, b)
 	if err != nil {
-		return &c20Violation{"C20/harness/worker", err.Error()}, true
+		rep.Label("worker-infra-error", 1) // inconclusive for this input, never a violation
+		rep.Notes["worker-infra-error"] = err.Error()
+		return nil, true
 	}
 	flag := func(key, what string) (*c20Violation, bool) {
 		if verifkit.Known(key) {
